@@ -116,6 +116,9 @@ class Cluster:
             daemon_threads = True
             allow_reuse_address = True
 
+            def handle_error(self, request, client_address):   # dropped connections are part of the experiment
+                pass
+
         srv = TS(("127.0.0.1", 0), H)
         threading.Thread(target=srv.serve_forever, daemon=True).start()
         return srv
